@@ -35,7 +35,8 @@ ASSUMPTIONS = [
     "independent closed forms of vf.ref.gates at exponent e*t; block matrices, embeddings, conjugations, commutators, Pauli "
     "conjugation tests and the eigenvalue-arc formula are computed independently in numpy",
     "commutes True => max|AB-BA| <= 10*atol*dim + 2e-5 (numpy's default rtol is part of 'approximately commute'); a definite False => max|AB-BA| > atol/10; TypeError/None = indeterminate (counted)",
-    "approx_eq / equal_up_to_global_phase True => max entry difference (after phase alignment) <= 4*atol*(#float parameters) + 1e-9",
+    "approx_eq True => max entry difference <= 2*pi*atol*max(3, #float parameters) + 1e-9 (each compared parameter enters through e^{i k pi x}, "
+    "|k| <= 2); equal_up_to_global_phase True => difference after phase alignment <= twice that + 2e-5 (numpy rtol of the matrix fall-back)",
     "tableau-defined gates (CliffordGate family) and BooleanHamiltonianGate have matrices defined up to global phase; their pow laws are "
     "checked up to phase",
     "tolerances: 1e-8 for exact algebraic identities, 1e-7 for products of three matrices",
@@ -165,6 +166,18 @@ def _flat(x):
 
 def _n_float_params(gr):
     return max(1, sum(1 for v in _flat(gr[1]) if isinstance(v, float)))
+
+
+def _param_bound(atol, n_params):
+    """Largest entry-wise difference of two unitaries whose compared parameters all agree within atol.
+
+    Every compared quantity x enters the documented matrices through factors e^{i k pi x} with |k| <= 2 (e^{2 pi i p} of
+    PhasedISwapPowGate / GPI / IonQ MS phases is the steepest; exponents, shifts, canonical eigen-phases have |k| <= 1; radians and
+    raw matrix entries have slope <= 1), so each contributes at most 2*pi*atol.  EigenGates are compared through their canonical
+    eigen-phases e*(s+theta_k), one per eigen-component (at most 3 for the two-/three-component gates of the table whose projector
+    entries are O(1)), hence at least 3 terms.  Comparisons *up to global phase* align the phase on one entry, which can double the
+    entry-wise difference: callers use 2*bound there, plus numpy's default rtol=1e-5 used by allclose_up_to_global_phase."""
+    return 2 * math.pi * atol * max(3, n_params) + 1e-9
 
 
 def _cmp(what, got, want, tol=TOL, phase=False):
@@ -691,7 +704,7 @@ def oracle_equality(r):
             raise Violation(f"{what}: a == b but not b == a")
     if (x != y) == eq:
         raise Violation(f"{what}: == and != agree ({eq})")
-    bound = 4 * atol * c + 1e-9
+    bound = _param_bound(atol, c)
     try:
         ae = cirq.approx_eq(x, y, atol=atol)
     except AttributeError:
@@ -702,7 +715,7 @@ def oracle_equality(r):
         raise Violation(f"{what}: a == b but approx_eq(atol={atol}) is False")
     ep = cirq.equal_up_to_global_phase(x, y, atol=atol)
     # matrix fall-backs use allclose_up_to_global_phase(atol=atol) with numpy's default rtol=1e-5 ("see np.isclose")
-    if ep is True and d_phase > bound + 2e-5:
+    if ep is True and d_phase > 2 * bound + 2e-5:
         raise Violation(f"{what}: equal_up_to_global_phase(atol={atol}) is True but the unitaries differ up to phase by {d_phase:.3g}")
     if eq and ep is False:
         raise Violation(f"{what}: a == b but equal_up_to_global_phase(atol={atol}) is False")
@@ -894,12 +907,12 @@ def oracle_controlled_equality(r):
         ae = cirq.approx_eq(x, y, atol=atol)
     except AttributeError:
         ae = None
-    if ae is True and d_exact > 8 * atol + 1e-9:
+    if ae is True and d_exact > _param_bound(atol, 3):
         raise Violation(f"{what}: approx_eq(atol={atol}) is True but the unitaries differ{detail}")
     if eq and ae is False:
         raise Violation(f"{what}: a == b but approx_eq is False{detail}")
     ep = cirq.equal_up_to_global_phase(x, y, atol=atol)
-    if ep is True and d_phase > 8 * atol + 2e-5:
+    if ep is True and d_phase > 2 * _param_bound(atol, 3) + 2e-5:
         raise Violation(f"{what}: equal_up_to_global_phase(atol={atol}) is True but the unitaries are not proportional{detail}")
     if eq and ep is False:
         raise Violation(f"{what}: a == b but equal_up_to_global_phase is False{detail}")
